@@ -56,7 +56,7 @@ def extra_checks(tier, seed):
     exe = V.build_race()
     rec = V.facts().get('sz_iface_state', 64)
     runs = 12 if tier == 'quick' else 200
-    fails = []; known = []; sites = {}; lost = 0; keys = {}
+    fails = []; known = []; sites = {}; lost = 0; keys = {}; reg_seen = False
     env = dict(os.environ); env['TSAN_OPTIONS'] = 'halt_on_error=0 report_signal_unsafe=0 exitcode=0'
     d = os.path.join(V.BUILD, 'run'); os.makedirs(d, exist_ok=True)
     for r in range(runs):
@@ -68,24 +68,35 @@ def extra_checks(tier, seed):
         if m and int(m.group(1)) > 2: lost += 1
         if p.returncode not in (0,) and 'ThreadSanitizer' not in out:
             fails.append('two-thread run crashed (exit %d): %s' % (p.returncode, out[-400:]))
-        for rep in out.split('=================='):
-            if 'ThreadSanitizer: data race' not in rep: continue
+        reps = [r_ for r_ in out.split('==================') if 'ThreadSanitizer: data race' in r_]
+        parsed = []
+        for rep in reps:
             # the two conflicting accesses: first stack frame of each that lies in the core's sources
             secs = [x for x in rep.split('\n\n') if re.search(r'(Read|Write|read|write) of size', x)][:2]
             fr = []
             for x in secs:
                 m2 = re.search(r'#\d+ (\S+) (\S*lltdResponder/\S+?):(\d+)', x)
                 fr.append(m2.groups() if m2 else ('?', '?', '0'))
+            loc = re.search(r"Location is (global '(\w+)'|heap block of size \d+[^\n]*)((?:\n\s+#\d+ [^\n]*)*)", rep)
+            glob = loc.group(2) if loc and loc.group(2) else None
+            alloc_fn = None
+            if loc and not glob:
+                m3 = re.search(r'#\d+ (\S+) \S*lltdResponder/', loc.group(3) or '')
+                alloc_fn = m3.group(1) if m3 else None
+            parsed.append((fr, glob, alloc_fn, rep))
+        # the registry accessors: whoever races on the global list head itself
+        accessors = set(f[0] for fr, glob, _, _ in parsed if glob == 'g_iface_states' for f in fr)
+        for fr, glob, alloc_fn, rep in parsed:
             pair = tuple(sorted(f[0] for f in fr))
             sites[pair] = sites.get(pair, 0) + 1
-            if all(f == 'lltd_state_for_iface' for f in pair):
-                pass
+            registry = glob == 'g_iface_states' or (glob is None and alloc_fn in accessors and all(f[0] in accessors for f in fr))
+            if registry: reg_seen = True
             else:
                 msg = 'data race between two receive threads outside the interface registry: %s\n%s' % (' / '.join('%s (%s:%s)' % f for f in fr), rep.strip()[:1500])
                 if msg.split('\n')[0] not in [x.split('\n')[0] for x in fails]: fails.append(msg)
     kf = [(k, t) for (p, k, t) in V.known_findings()[0] if p == 'C17' and k == 'registry-race']
     known_seen = []
-    if any(all(f == 'lltd_state_for_iface' for f in pair) for pair in sites) or lost:
+    if reg_seen or lost:
         if kf: known_seen.append(kf[0])
         else: fails.append('data race on the interface registry (lltd_state_for_iface): two threads handling their first frames concurrently; %d of %d runs lost an interface record' % (lost, runs))
     return {'failures': fails, 'known_seen': known_seen, 'evaluations': runs, 'distinct': len(sites), 'tsan_runs': runs, 'race_site_pairs': {' / '.join(k): v for k, v in sites.items()},
